@@ -649,6 +649,8 @@ with get_inline_expression (n : nat) (only_literal : bool) : M inline :=
             else
               retreat 1 ;;;
               num <- get_number_literal ;; ret (NumberLiteral num)
+          else if N.eqb b 45 then                                (* '-' if only_literal *)
+            num <- get_number_literal ;; ret (NumberLiteral num)
           else if N.eqb b 36 && negb only_literal then           (* '$' *)
             advance 1 ;;;
             id <- get_identifier ;;
